@@ -362,6 +362,27 @@ fn channel_id_clause(o: &mut Outcome, seed: u64) {
         x[i] ^= 1 << s.usize(8);
         differ(o, "customer-account", mk(&mr, &cr, pk, &ma, &x));
     }
+    // account information is usually text: every single-character change, including a change
+    // of letter case only, must change the id
+    let text_m = format!("Merchant Account {} / tz1{:x}", seed % 1000, seed);
+    let text_c = format!("customer-ACCOUNT-{:X}", seed.rotate_left(17));
+    let base_t = mk(&mr, &cr, pk, text_m.as_bytes(), text_c.as_bytes());
+    for (which, txt) in [("merchant-account(text)", &text_m), ("customer-account(text)", &text_c)] {
+        for i in 0..txt.len() {
+            let mut b = txt.as_bytes().to_vec();
+            if b[i].is_ascii_alphabetic() {
+                b[i] ^= 0x20;
+            } else {
+                b[i] = b[i].wrapping_add(1);
+            }
+            let id = if which.starts_with("merchant") { mk(&mr, &cr, pk, &b, text_c.as_bytes()) } else { mk(&mr, &cr, pk, text_m.as_bytes(), &b) };
+            o.bump("fault.substitution.channel-id-input");
+            o.events += 1;
+            if id == base_t {
+                o.violate("channel-id-ignores-input", &format!("ChannelId::new/{}", which), format!("changing only character {} of the {} (case / one step) leaves the channel id unchanged", i, which));
+            }
+        }
+    }
     let mut x = ma.clone();
     x.push(7);
     differ(o, "merchant-account", mk(&mr, &cr, pk, &x, &ca));
